@@ -53,6 +53,7 @@ type ioDelegate struct {
 	outfile *os.File
 	cache   *cache.File
 	tmpin   bool
+	commit  bool
 }
 
 func newIODelegate(inpath, outpath string) (*ioDelegate, error) {
@@ -71,7 +72,7 @@ func newIODelegate(inpath, outpath string) (*ioDelegate, error) {
 		}
 	}
 
-	return &ioDelegate{input, output, nil, false}, nil
+	return &ioDelegate{input, output, nil, false, false}, nil
 }
 
 func (d *ioDelegate) Read(p []byte) (int, error) {
@@ -158,6 +159,12 @@ func (d *ioDelegate) TryCache(h hash.Hash, data []byte) (bool, error) {
 	return true, nil
 }
 
+// Commit marks the run as successful. Only a committed run leaves a cache
+// entry behind when the delegate is closed.
+func (d *ioDelegate) Commit() {
+	d.commit = true
+}
+
 func (d *ioDelegate) Close() error {
 	if d.tmpin {
 		defer os.Remove(d.infile.Name())
@@ -167,7 +174,7 @@ func (d *ioDelegate) Close() error {
 	defer d.outfile.Close()
 
 	if d.cache != nil {
-		if err := d.cache.Close(); err != nil {
+		if err := d.cache.Close(); err != nil || !d.commit {
 			os.Remove(d.cache.Name())
 		}
 	}
